@@ -169,9 +169,13 @@ def rule_wired(ctx: Ctx) -> None:  # noqa: C901, PLR0912, PLR0915
     lazy_any = [c for c in ast.walk(rs.node) if isinstance(c, ast.Call) and dotted(c.func) in ("any", "all", "next") and c.args and isinstance(c.args[0], ast.GeneratorExp)
                 and any(isinstance(x, ast.Call) and dotted(x.func) == "get_storage_class" for x in ast.walk(c.args[0]))]
     lookups = [c for c in ast.walk(rs.node) if isinstance(c, ast.Call) and dotted(c.func) == "get_storage_class"]
-    ok = len(lookups) >= 2 and not lazy_any
-    ctx.add("1-wired", rs, lazy_any[0] if lazy_any else rs.node, ok, "every storage name of a per-output dict is looked up (no short-circuit)" if ok else
-            "storage names are looked up inside a short-circuiting any()/all(): names after the first hit are not validated before the folder is written", key="all-storage-names")
+    # ... or inside a loop that is left at the first hit
+    early = [lp for lp in ast.walk(rs.node) if isinstance(lp, (ast.For, ast.While)) and any(isinstance(x, ast.Call) and dotted(x.func) == "get_storage_class" for x in ast.walk(lp))
+             and any(isinstance(x, (ast.Return, ast.Break)) for b_ in lp.body for x in ast.walk(b_))]
+    bad = lazy_any or early
+    ctx.tri("1-wired", rs, bad[0] if bad else rs.node, bool(lookups) and not bad, bool(bad), "every storage name of a per-output dict is looked up (no short-circuit)",
+            "storage names are looked up inside a short-circuiting any()/all() / a loop left at the first hit: names after the first hit are not validated before the folder is written",
+            "no lookup of the storage class found in _requires_serialization", key="all-storage-names")
     prep = P.func(f"{PREP}.prepare_run")
     # an executor together with parallel=False is rejected before anything is written
     cfg_p = ctx.cfg(prep)
